@@ -345,6 +345,9 @@ def c14_cases(draw, max_nodes=14):
         ren = {n['id']: labels[i] for i, n in enumerate(wf['nodes'])}
         wf = {'nodes': [dict(n, id=ren[n['id']]) for n in wf['nodes']],
               'edges': [[ren[u], ren[v], x] for u, v, x in wf['edges']]}
+    if draw(st.integers(0, 3)) == 0:
+        # demands that are not whole numbers (JSON numbers; the repository's files write 7.14e4)
+        wf = {'nodes': [dict(n, comp=n['comp'] + draw(st.sampled_from([0, 0.5, 0.75, 0.25]))) for n in wf['nodes']], 'edges': wf['edges']}
     name = draw(st.text(C14_NAME_ALPHABET, min_size=1, max_size=6))
     clock = draw(st.sampled_from([0, 1, 7, 10, 123]))
     return {'wf': wf, 'name': name, 'clock': clock, 'duration': draw(st.integers(1, 9)),
@@ -965,8 +968,10 @@ class C16:
                     n['comp'] = ks[i % len(ks)] * f * uf                               # whole number of steps in either unit
                     n.pop('task_data', None)
                     i += 1
-                for e in o['wf']['edges']:
-                    e[2] = 0
+                for j, e in enumerate(o['wf']['edges']):
+                    # transfer times of whole seconds (0, 1, 3 or 5): a whole number of steps with 'seconds', possibly a fraction of a
+                    # step with the coarser unit - the successor then starts between two step boundaries
+                    e[2] = (0, 0, 1, 3, 5)[(ks[(i + j) % len(ks)] + j) % 5] * b
             vols = sum(o['rate'] * o['duration'] for o in sc['obs'])
             # the hot tier's ingest-rate limit: exactly the fastest observation's rate (accepted), above it, or 1 / 0.5 below
             # it (that observation's stream must be refused - with every unit alike)
@@ -1338,7 +1343,16 @@ def tier_history_strategy():
         return [cap, cap, hr, cr, ops + [['step', 2]] + tail]
     overlapping = st.tuples(st.integers(2, 30), st.integers(2, 30), st.integers(2, 30), rate, rate,
                             st.integers(1, 3), st.integers(0, 3), st.lists(op, max_size=8)).map(overlap)
-    return st.one_of(free, free, free, directed, overlapping)
+
+    def exact(t):
+        # the hot tier is filled to the last unit; the newest observation is taken to a cold tier that has exactly (or a little more
+        # than) room for it and is brought back with nothing else changed: both legs are exact fits
+        s1, s2, spare, hr, cr, tail = t
+        r = min(hr, cr)
+        return [s1 + s2, s2 + spare, hr, cr,
+                [['store', s1], ['store', s2], ['h2c'], ['step', math.ceil(s2 / r) + 1], ['c2h'], ['step', math.ceil(s2 / r) + 1]] + tail]
+    exactfit = st.tuples(st.integers(1, 30), st.integers(1, 30), st.sampled_from([0, 0, 1]), rate, rate, st.lists(op, max_size=6)).map(exact)
+    return st.one_of(free, free, free, directed, overlapping, exactfit)
 
 
 def run_tier_history(case):
